@@ -70,6 +70,11 @@ type Case struct {
 	// small buffer the block boundaries of the loader fall inside and exactly
 	// at the end of lines of ordinary files.
 	LineBuf int `json:"line_buf,omitempty"`
+	// Blank, when > 0: the history file of the first start already holds that
+	// many empty lines (Load skips lines that are blank - the project's own
+	// fixtures contain them; seeded change C20-n1: a repair of a torn tail
+	// that does not count them)
+	Blank int `json:"blank,omitempty"`
 	// ShortRead, when > 0: the files are read at most that many bytes per
 	// Read call (a reader may always deliver less than asked for).
 	ShortRead int `json:"short_read,omitempty"`
@@ -78,6 +83,7 @@ type Case struct {
 type engine struct {
 	rangedSkipped, rangedPartial int
 	safeRanged                   bool // of the case being executed
+	blank                        int  // of the case being executed
 	shortWrite bool
 	base       string
 	n          int
@@ -374,6 +380,10 @@ func (e *engine) Generate(seed uint64, idx int, tier string, avoid []harness.Fin
 			}
 		}
 	}
+	if r.Pct(12) {
+		// (drawn last, so that every other case is what it was before)
+		c.Blank = 1 + r.Intn(3)
+	}
 	b, _ := json.Marshal(c)
 	return b
 }
@@ -533,6 +543,14 @@ func (e *engine) newWorld() *world {
 		panic(err)
 	}
 	os.Setenv("HOME", home)
+	if e.blank > 0 {
+		if err := os.MkdirAll(w.dir, 0o755); err != nil {
+			panic(err)
+		}
+		if err := os.WriteFile(filepath.Join(w.dir, "history"), []byte(strings.Repeat("\n", e.blank)), 0o644); err != nil {
+			panic(err)
+		}
+	}
 	return w
 }
 
@@ -1003,6 +1021,7 @@ func (e *engine) Execute(raw json.RawMessage) (vd harness.Verdict) {
 	}
 	a := &acc{faults: map[string]int{}, probes: map[string]int{}}
 	e.safeRanged = c.SafeRanged
+	e.blank = c.Blank
 	simos.SetKnob("linereader", c.LineBuf)
 	defer simos.SetKnob("linereader", 0)
 	simos.SetKnob("bufio", c.LineBuf)
@@ -1165,6 +1184,17 @@ func (e *engine) crashRun(ops []Op, i, k int, after bool, ioErr bool, snaps []sn
 		return viol("start-fails", "start after a death %s step %d of op %d (%s): %s", side, k, i, ops[i].K, fail)
 	}
 	got := w.snap()
+	// Starting once more, with nothing entered in between, loads the same:
+	// what a start makes of the files a death left behind is stable (seeded
+	// change C20-n1: a start that "repairs" a torn tail and cuts into the
+	// entries before it, a little more at every start).
+	if fail := w.boot(); fail != "" {
+		return viol("start-fails", "second start after a death %s step %d of op %d (%s): %s", side, k, i, ops[i].K, fail)
+	}
+	if again := w.snap(); !listsEqual(again.hist, got.hist) || !listsEqual(again.stash, got.stash) {
+		return viol("restart-not-stable", "death %s step %d of op %d (%s): the next start loads history %s and stash %s, the start after it (nothing entered in between) history %s and stash %s",
+			side, k, i, ops[i].K, show(got.hist), show(got.stash), show(again.hist), show(again.stash))
+	}
 	A, B := snaps[i], snaps[i+1]
 	a.run = hashOf("crash", ops[i].K, fmt.Sprint(k, after, ioErr), show(got.hist), show(got.stash))
 	defer func() { a.hashes = append(a.hashes, a.run) }()
@@ -1279,7 +1309,7 @@ func (e *engine) Shrink(raw json.RawMessage) (out []json.RawMessage) {
 		// (SafeRanged is kept: without it a ranged clear of the shrunk case
 		// would be executed in the range the known finding covers and the
 		// violation would be taken for that finding)
-		n := Case{NoFaults: c.NoFaults, SafeRanged: c.SafeRanged, LineBuf: c.LineBuf, ShortRead: c.ShortRead}
+		n := Case{NoFaults: c.NoFaults, SafeRanged: c.SafeRanged, LineBuf: c.LineBuf, ShortRead: c.ShortRead, Blank: c.Blank}
 		n.Ops = make([]Op, len(c.Ops))
 		copy(n.Ops, c.Ops)
 		if c.Pin != nil {
@@ -1302,6 +1332,11 @@ func (e *engine) Shrink(raw json.RawMessage) (out []json.RawMessage) {
 	if c.LineBuf > 0 {
 		n := clone()
 		n.LineBuf = 0
+		emit(n)
+	}
+	if c.Blank > 0 {
+		n := clone()
+		n.Blank = 0
 		emit(n)
 	}
 	if c.ShortRead > 0 {
